@@ -45,7 +45,7 @@ SUM = {
  "C15-3": ("C15", "a request whose response channel is already cancelled is dropped unwritten when taken off the queue", "the PUBREL of a QoS 2 publish dropped with its PUBREC delivered but unseen (guard path) or dropped right after queueing the PUBREL: never written, slot lost"),
  "C16-3": ("C16", "SubscribeStream::poll_next returns Pending after consuming a PUBLISH whose Payload Format Indicator is 1 but whose payload is not UTF-8", "such a message followed by another one for the same stream, consumer polled only when woken"),
  "C17-3": ("C17", "acknowledgement handling refactored into a helper that returns early when no awaiting_ack entry exists, before removing the retransmission copy", "QoS 2 publish dropped before PUBREC, context-sent PUBREL answered with PUBCOMP, connection lost, session resumed: the PUBREL is replayed"),
- "C03-3": ("C03", "(see agent-notes.md)", "(see agent-notes.md)"),
+ "C03-3": ("C03", "RxPacketStream::poll_next gives up after 32 poll_read calls within one poll and returns Pending without waking itself", "one packet whose bytes arrive in more than 32 transport reads that are all ready back to back (e.g. a 34+ byte packet in single-byte reads all available at once), wake-only executor"),
 }
 for d in sorted(glob.glob('/verif/seeded/*/')):
     name = os.path.basename(d.rstrip('/'))
